@@ -182,6 +182,36 @@ def h_recommended(env, kind, slmode):
         env.equal("sl_feat%d_power" % i, B[0, i, 0], A[0, i, 0] * _pw(env, lam, tot[i]))
 
 
+def h_fraclapl_plan(env, kind):
+    """raw fractional-Laplacian features: the real FracLaplPlan.get_feat on a symbolic ingredient vector whose rows are scaled by
+    their physical powers (stated here from the documented definitions, not read from the code's tables: rho 3, each gradient +1, tau 5,
+    (-Lapl)^s +2s, so F_s 3+2s, the vectors F_s^1 / F_s^d 4+2s, F_s^dd 5+2s) must scale by the powers get_feat_usps declares; get_rho_usps
+    must list the row powers"""
+    st, plans = env.m.settings, env.m.plans
+    lam = _lam(env)
+    sub, _ = _settings(st, kind)
+    nsl = 5
+    nrow = nsl + sub.nrho
+    sl = [Fraction(x) for x in sub.slist]
+    rowp = [3, 4, 4, 4, 5] + [3 + 2 * sl[i] for i in range(sub.nk0)] + [4 + 2 * sl[i] for i in range(sub.nk1) for _ in range(3)] \
+        + [4 + 2 * sl[i] for i in range(sub.nd1) for _ in range(3)] + [5 + 2 * sl[i] for i in range(sub.ndd)]
+    env.check("row_count", len(rowp) == nrow, "%d %d" % (len(rowp), nrow))
+    R = env.arr("R", (1, nrow, 1), lo="-4", hi="4")
+    Rs = R.copy()
+    for i in range(nrow):
+        Rs[0, i, 0] = R[0, i, 0] * _pw(env, lam, rowp[i])
+    plan = plans.FracLaplPlan(sub, 1)
+    A = plan.get_feat(R.copy())
+    B = plan.get_feat(Rs)
+    usps = list(sub.get_feat_usps())
+    env.check("one_power_per_feature", len(usps) == sub.nfeat == A.shape[1], "%d %d" % (len(usps), sub.nfeat))
+    for i in range(sub.nfeat):
+        env.equal("feature_%d_scales_by_declared_power" % i, B[0, i, 0], A[0, i, 0] * _pw(env, lam, usps[i]))
+    rp = list(sub.get_rho_usps())
+    want = rowp[nsl:nsl + sub.nk0 + 3 * sub.nk1] + [4]
+    env.check("get_rho_usps_lists_row_powers", len(rp) == len(want) and all(Fraction(a) == Fraction(b) for a, b in zip(rp, want)), "%s vs %s" % (rp, want))
+
+
 # documented kernels (docs/features/nldf.rst): k(a, r) = a^p r^q exp(-a r^2) (q counts the vector factor too)
 DOC_KERNEL = {
     "se": (0, 0), "se_r2": (0, 2), "se_apr2": (1, 2), "se_ap": (1, 0), "se_ap2r2": (2, 2),
@@ -296,6 +326,8 @@ def tasks(tier):
     for kind in KINDS:
         for slmode in (("npa", "nst") if tier == "thorough" else ("npa",)):
             out.append(Task("recommended/%s/%s" % (kind, slmode), h_recommended, dict(kind=kind, slmode=slmode)))
+    for kind in ("fl", "fl_d", "fl_d2"):
+        out.append(Task("fraclapl_plan/%s" % kind, h_fraclapl_plan, dict(kind=kind)))
     for spec in list(DOC_KERNEL) + ["se_lapl"]:
         out.append(Task("kernel_power/%s" % spec, h_kernel_power, dict(spec=spec)))
     out.append(Task("misc_powers", h_misc_powers, {}))
@@ -317,7 +349,7 @@ def prepare(tier):
 META = dict(
     explanation="symbolic execution of the settings / plans / normalisers / baselines with a symbolic scaling factor; z3 decides "
                 "F(scaled input) == lam^u F(input) with u the power the code itself declares",
-    functions=["ciderpress/dft/plans.py: NLDFAuxiliaryPlan.get_function_to_convolve (convolved_function/*)", "ciderpress/dft/settings.py: get_cider_exponent(_gga), get_s2, get_alpha, *Settings.get_feat_usps/get_reasonable_normalizer, FeatureSettings.assign_reasonable_normalizer/get_feat_usps, SPEC_USPS, RHO_MULT_USPS",
+    functions=["ciderpress/dft/plans.py: FracLaplPlan.get_feat + ciderpress/dft/settings.py: FracLaplSettings.get_feat_usps / get_rho_usps (fraclapl_plan/*)", "ciderpress/dft/plans.py: NLDFAuxiliaryPlan.get_function_to_convolve (convolved_function/*)", "ciderpress/dft/settings.py: get_cider_exponent(_gga), get_s2, get_alpha, *Settings.get_feat_usps/get_reasonable_normalizer, FeatureSettings.assign_reasonable_normalizer/get_feat_usps, SPEC_USPS, RHO_MULT_USPS",
                "ciderpress/dft/plans.py: SemilocalPlan.get_feat", "ciderpress/dft/feat_normalizer.py: *.fill_fwd/get_usp, FeatNormalizerList._get_rho_and_inh/get_normalized_feature_vector, get_normalizer_from_exponent_params",
                "ciderpress/dft/baselines.py: lda_x, gga_x_pbe, gga_x_chachiyo, nlda_x_damp"],
     bounds=dict(lam="(1/8, 8) symbolic", sample_points=1, densities="symbolic, above the cutoffs on both sides of the scaling, tau >= tau_W",
